@@ -218,6 +218,7 @@ def run(ctx):
     for i, reason, pos in rej:
         ctx.violation("trace-rejected:%s" % meta[i]["kind"], "%s (position code %s) history=%s" % (reason, pos, json.dumps(traces[i]["runs"])[:600]), dict(meta[i], trace=traces[i]))
     real_kills(ctx, rng)
+    name_variants(ctx, rng)
     ctx.assumptions += ["flushed bytes survive a kill (no filesystem-level loss)", "resumes run in-process (maxtasksperchunk 0,1,2) and on the virtual multi-process layer (2 processes) under seeded schedules",
                         "a crash of run 1 is realised by truncating the log of an uninterrupted run (every byte prefix is a state a kill can leave, since each record is flushed before the next is produced); real SIGKILLs confirm this for a few instants"]
 
@@ -255,6 +256,52 @@ def real_kills(ctx, rng):
         if not _is_prefix_modulo_times(got, blob):
             ctx.violation("kill-not-a-prefix", "a SIGKILLed run left a file that is not a prefix of the uninterrupted log (%d bytes)" % len(got), dict(i=i, left=got[-200:].decode(errors="replace")))
     ctx.extra["real_kills"] = n; ctx.extra["real_kills_mid_run"] = hits
+
+
+def name_variants(ctx, rng):
+    """The property speaks of "a result file": any path.  A child process running the experiment in-process on a path with an
+    unusual name kills itself (os._exit) at the start of its k-th evaluation - every earlier record is complete and flushed -
+    and the experiment is run again on that path: same Result, nothing recorded is evaluated again, nothing recorded twice.
+    Nothing here looks inside the file: how it is encoded is the code's own business (writer, reader and recovery must agree)."""
+    shape = next(s for s in SHAPES if not s["fail"])
+    d = os.path.join(ctx.scratch, "names"); os.makedirs(os.path.join(d, "sweep.gzipped")); os.makedirs(os.path.join(d, "res.gz.d"))
+    ref = explib.result_digest(explib.run_inprocess(explib.build(shape)))
+    total = len(shape["tr"])
+    code = ("import sys, os; sys.path.insert(0, %r)\nfrom harness import explib\nimport json\n"
+            "shape=json.loads(sys.argv[1]); K=int(sys.argv[4]); cnt=[0]; orig=explib.VEval.evaluate\n"
+            "def ev(self, env, lrn):\n    cnt[0]+=1\n    if cnt[0]==K: os._exit(9)\n    return orig(self, env, lrn)\n"
+            "explib.VEval.evaluate=ev\n"
+            "explib.run_inprocess(explib.build(shape, side=sys.argv[3]), sys.argv[2])\n") % os.path.dirname(os.path.dirname(os.path.dirname(os.path.abspath(__file__))))
+    script = os.path.join(d, "child.py"); open(script, "w").write(code)
+    names = ["out.gz.log", "sweep.gzipped/out.log", "res.gz.d/out.log.gz", "out", "OUT.LOG.GZ", "out.gzip"]
+    for name in names[:ctx.pick(4, 6)]:
+        for K in ctx.pick((total,), (2, total)):
+            f = os.path.join(d, name); side1 = os.path.join(d, "side1.txt"); side2 = os.path.join(d, "side2.txt")
+            for x in (f, side1, side2):
+                if os.path.exists(x): os.remove(x)
+            open(side1, "w").close(); open(side2, "w").close()
+            case = dict(name=name, killed_at_evaluation=K, shape=shape)
+            ctx.case(json.dumps(["name", name, K]))
+            p = subprocess.run([sys.executable, "-W", "ignore", script, json.dumps(shape), f, side1, str(K)], capture_output=True, text=True, timeout=120)
+            if p.returncode != 9: raise RuntimeError("the child did not kill itself: rc=%s %s" % (p.returncode, p.stderr[-800:]))
+            done1 = [json.loads(l) for l in open(side1).read().splitlines()][:K - 1]
+            try:
+                got = explib.result_digest(explib.run_inprocess(explib.build(shape, side=side2), f))
+            except BaseException as e:
+                ctx.violation("unusable:name", "re-running on %r after a kill raised %s: %s" % (name, type(e).__name__, str(e)[:150]), case); continue
+            dd = explib.diff_digest(ref, got)
+            if dd: ctx.violation("result-differs:name", "resumed Result on %r differs from the uninterrupted one: %s" % (name, dd), case); continue
+            evals2 = [json.loads(l) for l in open(side2).read().splitlines()]
+            redone = [e for e in evals2 if e in done1]
+            if redone: ctx.violation("re-evaluated:name", "on %r triples %s were recorded before the kill and were evaluated again" % (name, redone[:3]), case); continue
+            if len(evals2) + len(done1) != total: ctx.violation("evaluations:name", "on %r the two runs evaluated %d + %d of %d triples" % (name, len(done1), len(evals2), total), case); continue
+            try:
+                third = explib.result_digest(explib.run_inprocess(explib.build(shape, side=side2), f))
+            except BaseException as e:
+                ctx.violation("unusable:name", "a third run on the completed file %r raised %s: %s" % (name, type(e).__name__, str(e)[:150]), case); continue
+            if explib.diff_digest(ref, third): ctx.violation("result-differs:name", "the completed file %r gives another Result when run again" % name, case); continue
+            if len(open(side2).read().splitlines()) != len(evals2): ctx.violation("re-evaluated:name", "a run on the completed file %r evaluated triples again" % name, case)
+    ctx.extra["name_variants"] = names[:ctx.pick(4, 6)]
 
 
 def _is_prefix_modulo_times(got, blob):
